@@ -8,7 +8,7 @@
 # corpus written by `c05 --dump-seeds` ("seeded") and once from an empty corpus ("empty"), each in a
 # fresh corpus directory, at most $JOBS (16) processes at a time, longest first.
 # A campaign that stops on an artifact (crash-/oom-/timeout-) is restarted on its grown corpus with
-# the remaining runs (at most 3 times) so that one non-reproducing artifact does not end it early.
+# the remaining runs (at most $MAX_RESTARTS = 8 times; corpus files that are themselves failing inputs are set aside) so that one non-reproducing artifact does not end it early.
 #
 # Output: $OUT/summary.json (default /verif/target/fuzz-out), logs, artifacts, per-campaign corpora.
 # This script judges nothing: `c05` reads the summary and classifies every artifact in engine A's
@@ -31,6 +31,7 @@ CORPUS=${VERIF_FUZZ_CORPUS:-/verif/target/fuzz-corpus}
 C05=${VERIF_C05_BIN:-/verif/target/harness/debug/c05}
 JOBS=${VERIF_FUZZ_JOBS:-16}
 SCALE=${VERIF_FUZZ_RUNS_SCALE:-100}
+MAX_RESTARTS=8
 BIN=$TD/x86_64-unknown-linux-gnu/release
 ALL_TARGETS="mpq attributes listfile patch decompress m2 skin anim adt wmo_root wmo_group blp dbc wdt wdl"
 TARGETS=${VERIF_FUZZ_TARGETS:-$ALL_TARGETS}
@@ -114,8 +115,15 @@ campaign() { # $1 target $2 kind
     if [ "$exit_code" -eq 0 ]; then break; fi
     # non-zero: an artifact was written (crash/oom/timeout) or the target could not run at all
     if [ -z "$(ls -A "$art" 2>/dev/null)" ]; then incomplete=1; break; fi
+    # a corpus file that is itself a failing input would stop every restart while the corpus is loaded:
+    # libFuzzer names artifacts <kind>-<sha1 of the input>, so such files can be found and set aside
+    local a h
+    for a in "$art"/*; do
+      h=${a##*-}
+      sha1sum "$work"/* 2>/dev/null | awk -v h="$h" '$1 == h { print $2 }' | while read -r f; do rm -f "$f"; done
+    done
     attempt=$((attempt + 1))
-    if [ "$attempt" -gt 3 ] || [ "$done_runs" -ge "$want" ]; then break; fi
+    if [ "$attempt" -gt "$MAX_RESTARTS" ] || [ "$done_runs" -ge "$want" ]; then break; fi
   done
   local last; last=$(grep -E '^#[0-9]+.*cov: ' "$log" | tail -1)
   local cov ft corp eps
